@@ -78,6 +78,15 @@ impl<I: Interner> SpecializationPriorities<I> {
     }
 }
 
+/// Verification hook, compiled only with `--cfg chalk_verif`.
+#[cfg(chalk_verif)]
+impl<I: Interner> SpecializationPriorities<I> {
+    /// The stored priority of an impl, `None` if the impl is not in the set.
+    pub fn verif_get(&self, impl_id: ImplId<I>) -> Option<usize> {
+        self.map.get(&impl_id).map(|p| p.0)
+    }
+}
+
 /// Impls with higher priority take precedence over impls with lower
 /// priority (if both apply to the same types). Impls with equal
 /// priority should never apply to the same set of input types.
